@@ -5,6 +5,58 @@ from .values import *
 from .interp import PathEnd, Brk, Cont
 
 
+def assigned_names(stmts):
+    """names a loop body writes: plain / augmented / annotated assignments, for-targets, with-targets, walrus, and the base names
+    of subscript or attribute stores (objects mutated in place)"""
+    out = set()
+
+    def base(t):
+        while isinstance(t, (ast.Subscript, ast.Attribute, ast.Starred)):
+            t = t.value
+        return t.id if isinstance(t, ast.Name) else None
+
+    def target(t):
+        if isinstance(t, (ast.Tuple, ast.List)):
+            for e in t.elts:
+                target(e)
+        else:
+            b = base(t)
+            if b:
+                out.add(b)
+    for node in stmts:
+        for n in ast.walk(node):
+            if isinstance(n, ast.Assign):
+                for t in n.targets:
+                    target(t)
+            elif isinstance(n, (ast.AugAssign, ast.AnnAssign)):
+                target(n.target)
+            elif isinstance(n, (ast.For, ast.AsyncFor)):
+                target(n.target)
+            elif isinstance(n, ast.NamedExpr):
+                target(n.target)
+            elif isinstance(n, ast.With):
+                for it in n.items:
+                    if it.optional_vars is not None:
+                        target(it.optional_vars)
+            elif isinstance(n, (ast.FunctionDef, ast.Lambda)):
+                pass
+    return out
+
+
+def checked_havoc(spec, ex, st, env, *args):
+    """run the contract's havoc and make sure it covered every loop-carried variable: a name that exists before the loop and is written
+    in the body must have been replaced (otherwise the 'arbitrary iteration' would silently start from the entry value of that
+    variable and the induction would be unsound)"""
+    written = assigned_names(st.body) | (assigned_names([ast.Assign(targets=[st.target], value=ast.Constant(0))]) if isinstance(st, ast.For) else set())
+    before = {n: (env[n], getattr(env[n], 'elem', None)) for n in written if n in env}
+    spec.havoc(ex, env, *args)
+    # havoc'd = replaced by another value, or (arrays) given new contents in place
+    kept = sorted(n for n, (v, el) in before.items() if n in env and env[n] is v and getattr(v, 'elem', None) is el
+                  and not (isinstance(st, ast.For) and n in assigned_names([ast.Assign(targets=[st.target], value=ast.Constant(0))])))
+    if kept:
+        raise Unsupported(f'{spec.name}: the loop writes {kept}, which the loop contract leaves at the entry value (the invariant must cover every loop-carried variable)')
+
+
 class LoopSpec:
     """havoc(ex, env) replaces the loop-carried variables by fresh symbols (and returns ghost data);
     inv(ex, env, ghost) returns the list of z3 Bool conjuncts of the invariant for the state in env
@@ -19,7 +71,7 @@ class LoopSpec:
         ghost = self.ghost_init(ex, env) if self.ghost_init else None
         conj, foralls = self.inv(ex, env, ghost)
         ex.obls.append((self.name + '.init', list(ex.pc), list(conj), list(foralls), 'invariant holds on loop entry', list(ex.foralls)))
-        self.havoc(ex, env, ghost)
+        checked_havoc(self, ex, st, env, ghost)
         conj, foralls = self.inv(ex, env, ghost)
         for c in conj:
             ex.assume(c)
@@ -61,7 +113,7 @@ class ForWhereSpec:
         n = c.shape[0]
         conj, foralls = self.inv(ex, env, 0)
         ex.obls.append((self.name + '.init', list(ex.pc), list(conj), list(foralls), 'invariant holds on loop entry (nothing processed)', list(ex.foralls)))
-        self.havoc(ex, env)
+        checked_havoc(self, ex, st, env)
         if ex.choice(self.name + '.iter'):
             i = ex.newvar('i_loop', 'int')
             ex.assume(z3.And(i >= 0, i < tonum(n)))
@@ -114,7 +166,7 @@ class ForIndexSpec:
             raise Unsupported(f'{self.name}: loop iterable {it!r} is not indexable')
         conj, foralls = self.inv(ex, env, 0)
         ex.obls.append((self.name + '.init', list(ex.pc), list(conj), list(foralls), 'invariant holds on loop entry', list(ex.foralls)))
-        self.havoc(ex, env)
+        checked_havoc(self, ex, st, env)
         if ex.choice(self.name + '.iter'):
             k = ex.newvar('k_loop', 'int')
             ex.assume(z3.And(k >= 0, k < n))
